@@ -241,3 +241,19 @@ axiom('rappend.len', forall([r, x], rlen(rappend(r, x)) == rlen(r) + 1, [rappend
 axiom('rappend.sum', forall([r, x], rsum(rappend(r, x)) == rsum(r) + x, [rappend(r, x)]), ['rappend'])
 axiom('rappend.at', forall([r, x, i], rat(rappend(r, x), i) == z3.If(i == rlen(r), x, rat(r, i)),
                            [rat(rappend(r, x), i)]), ['rappend'])
+
+# product of two symbolic reals: kept uninterpreted (commutative, unit and zero laws) so that equal factors give
+# equal products by congruence instead of through z3's incomplete nonlinear arithmetic
+rmulf = F('rprod', Real, Real, Real)
+axiom('rmul.comm', forall([x, y], rmulf(x, y) == rmulf(y, x), [rmulf(x, y)]), ['rprod'], 'algebra')
+axiom('rmul.zero', forall([x], z3.And(rmulf(x, 0) == 0, rmulf(0, x) == 0), [rmulf(x, 0)]), ['rprod'], 'algebra')
+axiom('rmul.one', forall([x], z3.And(rmulf(x, 1) == x, rmulf(1, x) == x), [rmulf(x, 1)]), ['rprod'], 'algebra')
+axiom('rmul.sign', forall([x, y], z3.Implies(z3.And(x >= 0, y >= 0), rmulf(x, y) >= 0), [rmulf(x, y)]), ['rprod'], 'algebra')
+
+
+def rmul(a, b):
+    """a * b for real terms: exact when one factor is a numeral"""
+    sa, sb = z3.simplify(a), z3.simplify(b)
+    if z3.is_rational_value(sa) or z3.is_rational_value(sb) or z3.is_int_value(sa) or z3.is_int_value(sb):
+        return a * b
+    return rmulf(a, b)
